@@ -67,6 +67,14 @@ Proof.
   apply to_hex_byte. now apply N.ltb_lt.
 Qed.
 
+Theorem get_hmac_str_spec t K m is_hex is_upper :
+  N.of_nat (length K) < 2 ^ 61 -> N.of_nat (length m) < 2 ^ 61 - 128 ->
+  get_hmac_str t K m is_hex is_upper = if is_hex then hex_of_bytes is_upper (HMAC_spec t K m) else HMAC_spec t K m.
+Proof.
+  intros HK Hm. unfold get_hmac_str. rewrite get_hmac_raw_spec by assumption.
+  destruct is_hex; [|reflexivity]. apply to_hex_spec. apply SHA_spec_ok.
+Qed.
+
 (* ---------- streaming context ---------- *)
 Lemma hc_get_put h c : htype c = hc_type h -> hc_get (hc_put h c) = c.
 Proof. destruct c; cbn [htype]; intros E; unfold hc_get, hc_put; cbn [hc_type]; rewrite <- E; reflexivity. Qed.
